@@ -88,11 +88,33 @@ def pair_potentials_api(model, wrap=None):
 
 
 def pair_tab_api(model, wrap=None, target=None):
+  """API usage variants (model['api_variant']): potentials as a tuple, integer cutoff, keyword arguments."""
   from atsim.potentials import pair_tabulation
   target = target or model["target"]
   cls = getattr(pair_tabulation, PAIR_CLASSES[target])
   pots = pair_potentials_api(model, wrap)
-  return cls(pots, float(model["tab"]["cutoff"]), int(model["tab"]["nr"]))
+  cutoff, nr = float(model["tab"]["cutoff"]), int(model["tab"]["nr"])
+  v = model.get("api_variant")
+  if v == "tuple":
+    pots = tuple(pots)
+  if v == "int_cutoff" and cutoff == int(cutoff):
+    cutoff = int(cutoff)
+  if v == "kwargs":
+    return cls(potentials=pots, cutoff=cutoff, nr=nr)
+  return cls(pots, cutoff, nr)
+
+
+def write_to_real_file(write, binary=False):
+  """Run write(fp) against a real file object on disk (text or binary mode) and return its content."""
+  fd, path = tempfile.mkstemp(prefix="out-", dir=os.environ.get("VERIF_TMP"))
+  os.close(fd)
+  try:
+    with open(path, "wb" if binary else "w") as fp:
+      write(fp)
+    with open(path, "rb" if binary else "r") as fp:
+      return fp.read()
+  finally:
+    os.unlink(path)
 
 
 # ------------------------------------------------------------------ EAM through the API
